@@ -82,6 +82,43 @@ type RespSpec struct {
 	Assertions   []AsrtSpec `json:"assertions"`
 	TimeForm     int        `json:"time_form,omitempty"`
 	SigMethod    string     `json:"sig_method,omitempty"`
+	// NSDecls: namespace declarations nobody uses, added in flight (after every signature was made) to the start tags of the
+	// plaintext elements with the given local name. Exclusive canonicalisation leaves them out of the signed octets, so every
+	// signature stands and nothing the message says changes - whatever the prefix is called and whatever the URI reads.
+	NSDecls []NSDecl `json:"unused_namespace_declarations,omitempty"`
+}
+
+type NSDecl struct {
+	On     string `json:"on"`     // local name of the elements that get the declaration
+	Prefix string `json:"prefix"` // e.g. NotOnOrAfter
+	Value  string `json:"value"`  // the "namespace URI"; "@ms:<n>" stands for the instant t0+n ms in its UTC lexical form
+}
+
+func applyNSDecls(root *etree.Element, decls []NSDecl, t0 time.Time) {
+	if len(decls) == 0 {
+		return
+	}
+	var walk func(e *etree.Element)
+	walk = func(e *etree.Element) {
+		for _, d := range decls {
+			if e.Tag == d.On {
+				v := d.Value
+				if strings.HasPrefix(v, "@ms:") {
+					var n int64
+					fmt.Sscanf(v, "@ms:%d", &n)
+					v = t0.Add(ms(n)).UTC().Format("2006-01-02T15:04:05.000Z")
+				}
+				e.CreateAttr("xmlns:"+d.Prefix, v)
+			}
+		}
+		if e.Tag == "EncryptedAssertion" || e.Tag == "Signature" {
+			return
+		}
+		for _, c := range e.ChildElements() {
+			walk(c)
+		}
+	}
+	walk(root)
 }
 
 func i64(v int64) *int64  { return &v }
@@ -351,6 +388,7 @@ func BuildResponseEl(s *RespSpec, t0 time.Time) *etree.Element {
 	if s.Sign {
 		el = placeSignature(signEnveloped(rsaKeys[s.SignKey], s.SigMethod, el))
 	}
+	applyNSDecls(el, s.NSDecls, t0)
 	return el
 }
 
